@@ -211,6 +211,7 @@ func vComparable(c *icall) {
 func intrNopTuple(c *icall) {
 	c.ret(Tuple{BV(64, 0), Iface{}})
 }
+
 // log.Fatal*: a diagnostic exit. Modelled as a Go panic so that harnesses can observe it with
 // vExpectPanic; outside such a region it crashes the path (engine monitor).
 func intrLogFatal(c *icall) {
@@ -614,6 +615,16 @@ func vAtomic(c *icall) {
 			op.DynRoot = &Ptr{Obj: objs[0].Obj}
 		}
 		c.e.visible(c.st, c.g, op)
+		if c.st.race != nil {
+			// an atomic section synchronises on its declared objects (the real code it models
+			// uses a mutex there)
+			for _, k := range objs {
+				c.st.race.onAcquire(c.g, k)
+				if kind >= 1 {
+					c.st.race.onRelease(c.g, k)
+				}
+			}
+		}
 	}
 	c.g.Atomic++
 	c.ret(nil)
